@@ -751,3 +751,98 @@ Proof.
   intros B Hct. destruct (begin_block_synced _ _ _ _ _ B) as [_ [_ ->]].
   rewrite nth_error_map, Hct. reflexivity.
 Qed.
+
+(** * Rank characterisation of the median *)
+Definition count_le (x : Z) (l : list Z) : nat := length (filter (fun y => y <=? x) l).
+Definition count_ge (x : Z) (l : list Z) : nat := length (filter (fun y => x <=? y) l).
+
+Lemma filter_length_perm (f : Z -> bool) l l' : Permutation l l' -> length (filter f l) = length (filter f l').
+Proof.
+  induction 1 as [|x l l' Hp IH|x y l|l l' l'' H1 IH1 H2 IH2]; cbn [filter].
+  - reflexivity.
+  - destruct (f x); cbn [length]; congruence.
+  - destruct (f x), (f y); reflexivity.
+  - congruence.
+Qed.
+
+Lemma filter_all_length (f : Z -> bool) l : (forall y, In y l -> f y = true) -> length (filter f l) = length l.
+Proof.
+  induction l as [|a r IH]; intros H; [reflexivity|]. cbn [filter].
+  rewrite (H a (or_introl eq_refl)). cbn [length]. rewrite IH; [reflexivity|]. intros y Hy. apply H. right; exact Hy.
+Qed.
+
+Lemma sorted_count_le : forall s, StronglySorted Z.le s ->
+  forall k, (k < length s)%nat -> (k + 1 <= count_le (nth k s 0%Z) s)%nat.
+Proof.
+  induction 1 as [|x r Hs IH Hall]; intros k Hk; cbn [length] in Hk; [lia|].
+  unfold count_le in *. destruct k as [|k]; cbn [nth filter].
+  - rewrite Z.leb_refl. cbn [length]. lia.
+  - assert (Hx : x <= nth k r 0).
+    { rewrite Forall_forall in Hall. apply Hall. apply nth_In. lia. }
+    apply Z.leb_le in Hx. rewrite Hx. cbn [length]. specialize (IH k ltac:(lia)). lia.
+Qed.
+
+Lemma sorted_count_ge : forall s, StronglySorted Z.le s ->
+  forall k, (k < length s)%nat -> (length s - k <= count_ge (nth k s 0%Z) s)%nat.
+Proof.
+  induction 1 as [|x r Hs IH Hall]; intros k Hk; cbn [length] in Hk; [lia|].
+  unfold count_ge in *. destruct k as [|k]; cbn [nth filter length].
+  - rewrite Z.leb_refl. cbn [length]. rewrite filter_all_length; [lia|].
+    intros y Hy. apply Z.leb_le. rewrite Forall_forall in Hall. apply Hall; exact Hy.
+  - specialize (IH k ltac:(lia)). destruct (nth k r 0 <=? x); cbn [length]; lia.
+Qed.
+
+(* the defining property of a median: at least half of the prices are <= it and at least
+   half are >= it (odd count: the value itself; even count: the two middle values lo <= hi
+   whose mean is taken) *)
+Lemma median_rank_odd l : Nat.odd (length l) = true ->
+  In (median l) l /\
+  (length l < 2 * count_le (median l) l)%nat /\ (length l < 2 * count_ge (median l) l)%nat.
+Proof.
+  intros Ho. destruct (median_odd_is_element l Ho) as [s [Hp [Hs E]]].
+  pose proof (Permutation_length Hp) as L.
+  assert (Hn : (0 < length l)%nat) by (destruct l; [discriminate|cbn; lia]).
+  assert (Hd : (length l / 2 < length s)%nat) by (rewrite L; apply Nat.div_lt; lia).
+  assert (H2 : (length l = 2 * (length l / 2) + 1)%nat).
+  { pose proof (Nat.div_mod (length l) 2 ltac:(lia)) as D.
+    assert (length l mod 2 = 1)%nat; [|lia].
+    rewrite <- Nat.bit0_mod, Nat.bit0_odd, Ho. reflexivity. }
+  split; [|split].
+  - rewrite E. eapply Permutation_in; [exact Hp|]. apply nth_In; exact Hd.
+  - unfold count_le. rewrite <- (filter_length_perm _ _ _ Hp). fold (count_le (median l) s).
+    rewrite E. pose proof (sorted_count_le s Hs _ Hd). lia.
+  - unfold count_ge. rewrite <- (filter_length_perm _ _ _ Hp). fold (count_ge (median l) s).
+    rewrite E. pose proof (sorted_count_ge s Hs _ Hd). lia.
+Qed.
+
+Lemma median_rank_even l : Nat.even (length l) = true -> l <> [] ->
+  exists lo hi, In lo l /\ In hi l /\ lo <= hi /\ median l = mean_price lo hi /\
+    (length l <= 2 * count_le lo l)%nat /\ (length l <= 2 * count_ge hi l)%nat /\
+    (forall y, In y l -> y <= lo \/ hi <= y).
+Proof.
+  intros He Hne. destruct (median_even_is_mean l He) as [s [Hp [Hs E]]].
+  pose proof (Permutation_length Hp) as L.
+  assert (Hn : (2 <= length l)%nat).
+  { destruct l as [|a [|b r]]; [congruence|cbn in He; discriminate|cbn; lia]. }
+  assert (H2 : (length l = 2 * (length l / 2))%nat).
+  { pose proof (Nat.div_mod (length l) 2 ltac:(lia)) as D.
+    assert (length l mod 2 = 0)%nat; [|lia].
+    rewrite <- Nat.bit0_mod, Nat.bit0_odd, <- Nat.negb_even, He. reflexivity. }
+  set (h := (length l / 2)%nat) in *.
+  assert (Hh : (1 <= h /\ h < length s)%nat) by lia.
+  exists (nth (h - 1) s 0), (nth h s 0).
+  split; [eapply Permutation_in; [exact Hp|apply nth_In; lia]|].
+  split; [eapply Permutation_in; [exact Hp|apply nth_In; lia]|].
+  split; [apply sorted_nth_le; [exact Hs|lia]|].
+  split; [exact E|].
+  split; [|split].
+  - unfold count_le. rewrite <- (filter_length_perm _ _ _ Hp). fold (count_le (nth (h - 1) s 0) s).
+    pose proof (sorted_count_le s Hs (h - 1)%nat ltac:(lia)). lia.
+  - unfold count_ge. rewrite <- (filter_length_perm _ _ _ Hp). fold (count_ge (nth h s 0) s).
+    pose proof (sorted_count_ge s Hs h ltac:(lia)). lia.
+  - intros y Hy. apply (Permutation_in _ (Permutation_sym Hp)) in Hy.
+    apply (In_nth _ _ 0) in Hy. destruct Hy as [i [Hi <-]].
+    destruct (Nat.le_gt_cases i (h - 1)) as [Hle|Hgt].
+    + left. apply sorted_nth_le; [exact Hs|lia].
+    + right. apply sorted_nth_le; [exact Hs|lia].
+Qed.
